@@ -67,7 +67,13 @@ def _cr_lf(f) -> bool:
             bool(f.tags.get("filtered")))
 
 
+def _other_geometry(f) -> bool:
+    return f.tags.get("area") == "other-kind" and f.what.startswith("an image was written as a")
+
+
 CLASSIFIERS = {
+    # kinds the property does not name, written through a bitmap path that assumes another sample size
+    "c18_unnamed_kind_bitmap_geometry": _other_geometry,
     # data whose last byte is CR, written with a bare LF before EI: pdfminer strips CR LF as one EOL
     "c18_inline_data_ends_cr_before_lf": _cr_lf,
 }
@@ -135,19 +141,21 @@ def make_stream(img: Dict[str, Any], rng=None, raw: Optional[bytes] = None):
     d = IL.image_dict(img, inline, abbreviate=img.get("abbr", True))
     if "bits" in img:
         d["BPC" if "BPC" in d else "BitsPerComponent"] = img["bits"]
-    if "cs" in img:
+    if "cslist" in img:
         key = "CS" if "CS" in d else "ColorSpace"
-        full = {"G": "DeviceGray", "RGB": "DeviceRGB", "CMYK": "DeviceCMYK", "g": "G", "rgb": "RGB", "I": "Indexed"}
-        if img["cs"] == "N":
+        if img["cslist"] is None:
             d.pop(key)
+        elif img.get("cs_scalar"):
+            d[key] = img["cslist"][0]
         else:
-            d[key] = full[img["cs"]]
+            d[key] = list(img["cslist"])
     attrs = {}
     for k, v in d.items():
         if isinstance(v, str):
             v = _lit(v)
         elif isinstance(v, list):
-            v = [_lit(x) for x in v]
+            v = [(_lit(x) if isinstance(x, str) and not x.startswith("<") else
+                  (bytes.fromhex(x[1:-1]) if isinstance(x, str) else x)) for x in v]
         attrs[k] = v
     if raw is None:
         raw = IL.encode_chain(bytes.fromhex(img["data"]), img.get("filters", []), rng)
@@ -158,14 +166,24 @@ def flt_code(filters: List[str]) -> str:
     return "".join(IL.LETTER[f] for f in filters) or "-"
 
 
-def cs_code(img) -> str:
+def cs_wire(img) -> str:
+    """The ColorSpace value as the model sees it: `none` (no entry), or the elements of LTImage.colorspace."""
+    def tok(x):
+        if isinstance(x, int):
+            return "i%d" % x
+        if isinstance(x, str) and x.startswith("<"):
+            return "o"
+        return "n" + C.hx(x.encode("latin-1"))
+    if "cslist" in img:
+        if img["cslist"] is None:
+            return "none"
+        return ",".join(tok(x) for x in img["cslist"]) or "empty"
     k = img["kind"]
-    if "cs" in img:
-        return img["cs"]
-    long = {"gray8": "G", "rgb8": "RGB", "bit1": "G", "jpeg-gray": "G", "jpeg-rgb": "RGB"}[k]
+    long = {"gray8": "DeviceGray", "rgb8": "DeviceRGB", "bit1": "DeviceGray", "jpeg-gray": "DeviceGray",
+            "jpeg-rgb": "DeviceRGB"}[k]
     if img.get("place") == "inline" and img.get("abbr", True):
-        return long.lower()
-    return long
+        long = IL.CS_ABBR[k]
+    return tok(long)
 
 
 def bits_of(img) -> int:
@@ -387,6 +405,67 @@ def shrink_image(img: Dict[str, Any], still_fails) -> Dict[str, Any]:
     return cur
 
 
+OTHER_CS = [
+    (["DeviceCMYK"], 4), (["CMYK"], 4), (["Indexed", "DeviceRGB", 255, "<000000ffffff>"], 1),
+    (["I", "RGB", 1, "<000000ffffff>"], 1), (["Indexed", "DeviceGray", 3, "<00ff>"], 1),
+    (["Indexed", "DeviceCMYK", 1, "<00000000ffffffff>"], 1), (["Separation", "Spot", "DeviceRGB", "<00>"], 1),
+    (["Separation", "Spot", "DeviceGray", "<00>"], 1), (["CalRGB"], 3), (["CalGray"], 1), (["Lab"], 3),
+    (["DeviceN", "<00>", "DeviceCMYK", "<00>"], 2), (None, 1), ([], 1), (["DeviceRGB"], 3), (["DeviceGray"], 1),
+    (["RGB"], 3), (["G"], 1), (["Pattern"], 1),
+]
+
+
+def gen_other_image(rng, idx: int) -> Dict[str, Any]:
+    cslist, ncomp = rng.choice(OTHER_CS)
+    bits = rng.choice([1, 2, 4, 8, 8, 16])
+    named = cslist in (["DeviceRGB"], ["DeviceGray"], ["RGB"], ["G"]) and bits in (1, 8) and not (bits == 1 and ncomp == 3)
+    if named:
+        bits = rng.choice([2, 4, 16])
+    w = rng.choice([1, 2, 3, 4, 5, 7, 8, 9, 17])
+    h = rng.choice([1, 2, 3])
+    n = h * ((w * bits * ncomp + 7) // 8)
+    return {"kind": "other", "w": w, "h": h, "bits": bits, "ncomp": ncomp, "cslist": cslist,
+            "cs_scalar": bool(cslist) and len(cslist) == 1 and rng.random() < 0.6,
+            "data": gen_samples(rng, n).hex(),
+            "filters": rng.choice([[], [], ["Flate"], ["A85"], ["Flate", "A85"], ["A85", "Flate"], ["RL"], ["A85", "DCT"], ["DCT"]]),
+            "name": rng.choice(["Im0", "X", "o%d" % idx]), "place": "xobj", "domain": False}
+
+
+def judge_other(img: Dict[str, Any], name: Optional[str], blob: Optional[bytes], exc: Optional[str]):
+    """Images of kinds the property does not name: the export may fall back to a raw dump or need Pillow, but it must
+    not crash otherwise, and it may take the bitmap path only when the sample data has the size that path assumes."""
+    data = bytes.fromhex(img["data"])
+    if exc is not None:
+        if exc == "ImportError":
+            return None               # documented: Pillow is needed for this kind
+        return ("image export of an unnamed kind raised", "a file or ImportError(Pillow)", exc)
+    if name.endswith(".img"):
+        if blob != data:
+            return ("raw image dump differs from the stored data", data.hex(), blob.hex())
+        want = ".%d.%dx%d.img" % (img["bits"], img["w"], img["h"])
+        if not name.endswith(want):
+            return ("raw image dump has a wrong name suffix", want, name)
+        return None
+    if name.endswith(".jpg"):
+        return None if blob == data else ("exported JPEG differs from the stored DCT data", data.hex(), blob.hex())
+    if name.endswith(".bmp"):
+        dec = IL.read_bmp(blob)
+        if dec is None:
+            return ("exported BMP is not a complete well-formed BMP file", "decodable file", blob[:60].hex())
+        depth = struct_depth(blob)
+        rowb = (img["w"] * depth + 7) // 8
+        if len(data) != img["h"] * rowb:
+            return ("an image was written as a %d-bit bitmap although its sample data has another size" % depth,
+                    "raw dump or a bitmap of matching geometry", {"name": name, "data_bytes": len(data),
+                                                                   "bitmap_bytes": img["h"] * rowb})
+        return None
+    return ("unexpected file type", "bmp/jpg/img", name)
+
+
+def struct_depth(blob: bytes) -> int:
+    return int.from_bytes(blob[28:30], "little")
+
+
 def check_export_direct(ctx: C.Ctx, imgs: List[Dict[str, Any]], pre: List[str], lines, impl, inputs, tag="gen"):
     res, listing, untouched = export_direct(imgs, ctx.rng, pre)
     existing = list(pre)
@@ -399,10 +478,11 @@ def check_export_direct(ctx: C.Ctx, imgs: List[Dict[str, Any]], pre: List[str], 
                  branch="export:" + img["kind"] + (":raw" if not img.get("filters") else ":filtered"))
         for f in img.get("filters", []):
             ctx.branch("filter:" + f)
-        ctx.branch("rowbytes%4=" + str(IL.row_bytes(img["kind"], img["w"]) % 4 if not img["kind"].startswith("jpeg") else "-"))
+        if img["kind"] != "other":
+            ctx.branch("rowbytes%4=" + str(IL.row_bytes(img["kind"], img["w"]) % 4 if not img["kind"].startswith("jpeg") else "-"))
         # model line
         lines.append("export %s %s %d %d %d %s %s %s" % (
-            flt_code(img.get("filters", [])), cs_code(img), bits_of(img), img["w"], img["h"],
+            flt_code(img.get("filters", [])), cs_wire(img), bits_of(img), img["w"], img["h"],
             C.hx(img["name"].encode("latin-1")), ",".join(C.hx(n.encode("latin-1")) for n in existing) or "-",
             C.hx(data)))
         impl.append("E:" + exc if exc else "OK %s %s" % (C.hx(name.encode("latin-1")), C.hx(blob)))
@@ -415,7 +495,15 @@ def check_export_direct(ctx: C.Ctx, imgs: List[Dict[str, Any]], pre: List[str], 
                 dec = IL.read_bmp(blob)
                 impl.append("none" if dec is None else "OK %d %d %s" % (dec[0], dec[1], C.hx(dec[2])))
                 inputs.append(("readbmp", {"file": blob.hex()}))
-        if img.get("domain", True):
+        if img["kind"] == "other":
+            bad = judge_other(img, name, blob, exc)
+            ctx.branch("other:bits=%d" % img["bits"])
+            ctx.branch("other:cs=" + ("none" if img["cslist"] is None else "/".join(str(x) for x in img["cslist"][:2]) or "[]"))
+            ctx.branch("other:result=" + (exc or name.rsplit(".", 1)[-1]))
+            if bad is not None:
+                ctx.fail(C.Failure(bad[0], {"mode": "direct", "images": [img], "pre": []}, bad[1], bad[2],
+                                   {"area": "other-kind", "bits": img["bits"], "cs": img["cslist"], "filters": img["filters"]}))
+        elif img.get("domain", True):
             bad = judge_file(img, name, blob, exc)
             if bad is not None:
                 def still(t):
@@ -466,16 +554,11 @@ def run_export(ctx: C.Ctx) -> None:
             if rng.random() < 0.3 and len(pre) > 1:
                 pre.pop(rng.randrange(1, len(pre)))    # a gap in the numbering
         check_export_direct(ctx, imgs, pre, lines, impl, inputs)
-    # off-domain shapes, for the tie only (format choice branches: raw .img, Pillow paths)
-    for i in range(ctx.n(200, 3000)):
-        img = gen_image(rng, idx, force_kind="gray8")
+    # kinds the property does not name (2/4/16-bit samples, Indexed, CMYK, Separation, Cal*, missing colour space):
+    # tie for every format-choice branch, and the weaker demand `judge_other`
+    for i in range(ctx.n(400, 6000)):
+        img = gen_other_image(rng, idx)
         idx += 1
-        img["domain"] = False
-        img["bits"] = rng.choice([2, 4, 16, 8, 8])
-        img["cs"] = rng.choice(["CMYK", "I", "N", "G", "RGB"])
-        img["filters"] = rng.choice([[], ["Flate"], ["A85"], ["Flate", "A85"], ["A85", "Flate"]])
-        if img["bits"] == 8 and img["cs"] in ("G", "RGB"):
-            img["cs"] = "CMYK"
         check_export_direct(ctx, [img], [], lines, impl, inputs)
     ask_and_compare(ctx, lines, impl, inputs)
 
